@@ -263,6 +263,13 @@ func (s *Script) Deploy(from int, runtime []byte, slot0 int64, value string, gas
 	return s.Deliver(tx, from, "contract:deploy"), addr
 }
 
+// deployRaw sends a contract-creation transaction with the given INIT code as it is.
+func (s *Script) deployRaw(from int, initCode []byte, value string, gas uint64) (J, []byte) {
+	addr := s.CreateAddr(from)
+	tx := web3.NewTrxContract(s.R.KR.Addr(from), types.ZeroAddress(), s.nonce(from), gas, s.price(), Amt(value), initCode)
+	return s.Deliver(tx, from, "contract:deploy-raw"), addr
+}
+
 // CallC sends a contract call.
 func (s *Script) CallC(from int, to []byte, data []byte, value string, gas uint64) J {
 	tx := web3.NewTrxContract(s.R.KR.Addr(from), to, s.nonce(from), gas, s.price(), Amt(value), data)
